@@ -3,6 +3,7 @@ from __future__ import annotations
 
 import concurrent.futures as cf
 import json
+import shutil
 import time
 
 from vlib import core
@@ -71,7 +72,7 @@ def run(tier: str, seed: int) -> int:
     try:
         cov = {'states': 0, 'transitions': 0, 'models': {}}
         env = {'VERIF_SEED': seed, 'VERIF_TIER': tier}
-        with cf.ThreadPoolExecutor(max_workers=6) as ex:
+        with cf.ThreadPoolExecutor(max_workers=10) as ex:
             # 1. the design
             mc_jobs = {cfg: ex.submit(run_tlc, 'FsSem', cfg, workers=8, timeout=1500) for cfg in MC[tier]}
             # 2. drivers that need nothing from TLC
@@ -91,11 +92,14 @@ def run(tier: str, seed: int) -> int:
                 edge_total += len(edges)
                 ef = work.path(cfg + '.json')
                 ef.write_text(json.dumps(edges))
-                out = work.path(cfg + '.ndjson')
-                st = json.loads(core.run_driver('c19_driver.py', ['edges', ef, out], env=env).strip().splitlines()[-1])
-                if st.get('edges_replayed') != len(edges):
-                    raise MachineryError(f'{cfg}: {st.get("edges_replayed")} of {len(edges)} transitions replayed')
-                edge_files.append(out)
+                nproc = 4
+                outs = [work.path(f'{cfg}.{part}.ndjson') for part in range(nproc)]
+                futs = [ex.submit(core.run_driver, 'c19_driver.py', ['edges', ef, outs[part], nproc, part], env=env)
+                        for part in range(nproc)]
+                done = sum(json.loads(f.result().strip().splitlines()[-1]).get('edges_replayed', 0) for f in futs)
+                if done != len(edges):
+                    raise MachineryError(f'{cfg}: {done} of {len(edges)} transitions replayed')
+                edge_files += outs
             for cfg, fut in mc_jobs.items():
                 r = fut.result()
                 core.require_mc(r, cfg)
@@ -117,18 +121,22 @@ def run(tier: str, seed: int) -> int:
         cov['handshake'] = {'file_sets': counts[0]['namesets'], 'backends': 4, 'model_edges': edge_total}
         cov['edges_replayed'] = edge_total
         # 4. TLC validates every record
-        allm, total, samples = [], 0, []
-        for p in [single, rnd] + edge_files:
-            mism, st = core.validate_records('FsSemTrace', 'FsSemTrace.cfg', p, work=work, timeout=3000)
-            allm += mism
-            total += st['records']
-            cov['states'] += st['states']
-            cov['transitions'] += st['transitions']
-            with open(p, encoding='utf-8') as f:
-                first = json.loads(f.readline())
-            samples.append({'k': first['k'], 'src': first['src'], 'backend': first.get('backend'),
-                            'files': first.get('files'), 'members': [[m['backend'], m['pfx']] for m in first.get('members', [])],
-                            'first_walk': (first['walks'] or [None])[0]})
+        samples = []
+        merged_all = work.path('all.ndjson')
+        with open(merged_all, 'w', encoding='utf-8') as mf:
+            for p in [single, rnd] + edge_files:
+                with open(p, encoding='utf-8') as f:
+                    first = f.readline()
+                    mf.write(first)
+                    shutil.copyfileobj(f, mf)
+                first = json.loads(first)
+                samples.append({'k': first['k'], 'src': first['src'], 'backend': first.get('backend'),
+                                'files': first.get('files'), 'members': [[m['backend'], m['pfx']] for m in first.get('members', [])],
+                                'first_walk': (first['walks'] or [None])[0]})
+        allm, st = core.validate_records('FsSemTrace', 'FsSemTrace.cfg', merged_all, work=work, timeout=3000)
+        total = st['records']
+        cov['states'] += st['states']
+        cov['transitions'] += st['transitions']
         cov['traces_validated_against_impl'] = total
         cov['records_validated'] = total
         cov['mismatches'] = len(allm)
